@@ -37,17 +37,32 @@ Definition stream_sorted_labels (ss : list stream) : bool := forallb (fun s => l
 
 Definition dparams (e : deval) : mparams := {| p_start := de_start e; p_end := de_end e; p_step := de_step e |}.
 
+(** a stage the parser accepts and pipeline construction (BuildPipeline) rejects -- a template that does not compile, a pattern with
+    adjacent captures, ip("not-an-ip"), a malformed path -- is written [EInvalid] by the generator (a label_format with an empty
+    target, which no query text yields): whatever else the query holds, its evaluation is an error *)
+Definition EInvalid : estage := ELabelFormat [] [([], [TFail])].
+Definition is_invalid (s : estage) : bool :=
+  match s with ELabelFormat [] [(l, _)] => match l with [] => true | _ => false end | _ => false end.
+Fixpoint mexpr_invalid (e : mexpr) : bool :=
+  match e with
+  | MRange _ q _ _ _ _ _ => existsb is_invalid (q_pipe q)
+  | MVecAgg _ e' _ _ => mexpr_invalid e'
+  | MBin _ _ l r => mexpr_invalid l || mexpr_invalid r
+  | _ => false
+  end.
+
 (** model outcome on an inventory: Some true-ish structure; None = outside fragment *)
 Definition model_out (c : dcase) (inv : list container) (lf : bool) (e : deval) : option doutcome :=
   match de_q e with
   | DQLog q lim =>
+      if existsb is_invalid (q_pipe q) then Some OError else
       match docker_log (d_orc c) lf inv q lim with
       | DOk es => Some (OStreams (group_entries es))
       | DErr => Some OError
       | DOut => None
       end
   | DQMetric me =>
-      if lf then Some OError else
+      if lf || mexpr_invalid me then Some OError else
       match docker_metric (d_orc c) inv (dparams e) me with
       | Some ss => Some (OSeries ss)
       | None => None
